@@ -7,6 +7,8 @@
   silent makes `recv()` raise `socket.timeout`, which `_connect_proxy` turns into ConnectFail (`Proxy.negotiate`, read outcome
   `timeout`; theorems `C19.*`).  A `settimeout(None)` before the answer has been read would make that `recv()` block for ever:
   neither ConnectFail nor Connected would be emitted (seeded change C19-r4m2; the composed-connection harness reports `HUNG`).
+  The model counterpart is `ConnectLink.attempt` with the shape flag `Inputs.blockBeforeTunnel`; the theorems are in
+  `Properties/C19_Timeout.lean` (`silent_proxy_gives_connect_fail`, `blocking_before_tunnel_hangs`, `source_has_pinned_order`).
 -/
 import Lomond.Generated.Facts
 
